@@ -1,5 +1,6 @@
 import Sif.Proofs.C03
 import Sif.Proofs.C03Swap
+import Sif.Proofs.ClpLp
 import Sif.Model.Clp.Machine
 /-
   C03 — Swaps settle exactly, within constant-product bounds, honouring minimum received.
@@ -118,6 +119,25 @@ theorem swap_fail_unchanged (s : St) (signer sent recv : String) (amt mn : Nat)
   split
   · rename_i s' y hh; exact absurd hh (h _)
   · rfl
+
+/-- Liquidity protection (when switched on) only ever refuses a swap or moves the threshold — exact settlement
+    above holds with it on or off.  A sale of the native token worth more than the current threshold
+    (priced in the threshold asset before the pool moves) is refused. -/
+theorem swap_refused_above_threshold {s : St} {signer recv : String} {amt mn : Nat} {price : Dec} {v : Nat}
+    (hact : s.params.lpActive = true) (hp : nativePrice s = .ok price) (hv : rowanValue amt price = .ok v)
+    (hlt : s.lpCur < v) (r : St × Nat) : swap s signer rowan recv amt mn ≠ .ok r :=
+  swap_blocked hact hp hv hlt r
+
+/-- The current threshold never exceeds the maximum after a swap (the per-block replenishment computes
+    max − current and panics otherwise). -/
+theorem swap_threshold_le_max {s s' : St} {signer sent recv : String} {amt mn y : Nat}
+    (hle : s.lpCur ≤ s.params.lpMax) (h : swap s signer sent recv amt mn = .ok (s', y)) :
+    s'.lpCur ≤ s.params.lpMax :=
+  swap_lpCur_le hle h
+
+/- non-vacuity: threshold 25, price 1 (denominated in the native token): selling 30 is worth 30 > 25 -/
+example : nativePrice { params := { lpActive := true, lpAsset := "rowan" }, lpCur := 25 } = .ok Dec.one ∧
+    rowanValue 30 Dec.one = .ok 30 := by decide +kernel
 
 /- non-vacuity: a concrete non-trivial swap meets the hypotheses and produces an output -/
 example : calcSwapResult false 1000000 1000 2000000 ⟨10^17⟩ ⟨3 * 10^15⟩ = .ok (2191, 6) := by decide +kernel
